@@ -52,6 +52,11 @@ func checkBatchRun(c *hx.Ctx, kase caseID, r *hx.Rng, chunks []*rag.Chunk) {
 	n := len(chunks)
 	cfg := genConfigWild(r)
 	size := r.Range(1, n+2)
+	if rw := r.Fork(0xB8); rw.Chance(1, 3) {
+		// any positive int is a batch size (see genWideBatchSize)
+		size, _ = genWideBatchSize(rw, n)
+		c.Count("batchrun-wide-size")
+	}
 	fail := -1
 	if r.Chance(1, 2) {
 		fail = r.Intn(n/size + 2)
